@@ -4,24 +4,9 @@
 use crate::common::*;
 use matreex::{Matrix, Order};
 
-/// must match lean/Driver/Fmt.lean
-pub const PALETTE: [&str; 20] = [
-    "", "a", "ab", "äöü", "x\ny", "\n", "p\r\nq", "a longer rendering", "日本", "a\n\nb", "tail\n", "\r",
-    "7", "-12", "3.25", "wide\nw\nlonger line", " ", "\n\n", "é", "tab\there",
-];
-
-#[derive(Clone)]
-struct P(usize);
-impl std::fmt::Display for P {
-    fn fmt(&self, f: &mut std::fmt::Formatter<'_>) -> std::fmt::Result { f.write_str(PALETTE[self.0]) }
-}
-impl std::fmt::Debug for P {
-    fn fmt(&self, f: &mut std::fmt::Formatter<'_>) -> std::fmt::Result { f.write_str(PALETTE[self.0]) }
-}
-
-fn escape(s: &str) -> String {
-    s.replace('\\', "\\\\").replace('\n', "\\n").replace('\r', "\\r").replace('\t', "\\t")
-}
+#[path = "fmt_shared.rs"]
+mod fmt_shared;
+pub use fmt_shared::*;
 
 fn single_line(i: usize) -> bool { !PALETTE[i].contains('\n') }
 
